@@ -118,7 +118,7 @@ def maps_term(maps, qnums):
     return '(Some ' + lst([lst([tup(zraw(q), zraw(d[q])) for q in qnums]) for d in maps]) + ')'
 
 
-EXTRA = '''From Model Require Import PeriodicTable IsoBits.
+EXTRA = '''From Model Require Import PeriodicTable IsoBits IsoBitsExt.
 From Gen Require Import Elements.
 Import ListNotations.
 Open Scope Z_scope.
@@ -130,8 +130,14 @@ Definition mask_run (rq : list rqent) (rm : list ratom) (scope : list bool) : op
   option_map (map (mask_mapping qu mo)) (mask_search qu mo scope FUEL).
 Definition ref_run (rq : list rqent) (rm : list ratom) (scope : list bool) : option (list (list (Z * Z))) :=
   option_map (map (ref_mapping rq rm)) (ref_search rq rm scope FUEL).
-Definition pair_ok (rq : list rqent) (rm : list ratom) (scope : list bool) (omask oref : option (list (list (Z * Z)))) : bool :=
-  maps_eqb (mask_run rq rm scope) omask && maps_eqb (ref_run rq rm scope) oref.
+Definition pair_ok (rq : list rqent) (rm : list ratom) (scope : list bool) (omask oref : option (list (list (Z * Z)))) (occ : Z) : bool :=
+  maps_eqb (mask_run rq rm scope) omask && maps_eqb (ref_run rq rm scope) oref &&
+  ((occ <? 0) || (Z.of_nat (mask_occupancy (enc_query rq) (enc_mol rm) scope FUEL) =? occ)).
+(* an input on which the transpiled loop wrote outside its stack arrays: the model needs more cells than the .pyx allocates,
+   and the proved allocation would have been enough *)
+Definition overflow_ok (rq : list rqent) (rm : list ratom) (scope : list bool) : bool :=
+  let qu := enc_query rq in let mo := enc_mol rm in let occ := mask_occupancy qu mo scope FUEL in
+  Nat.ltb (alloc_pyx mo) occ && Nat.leb occ (alloc_sufficient qu mo).
 '''
 
 
@@ -400,6 +406,7 @@ def in_range_query(s, mdl):
 # running the two real paths at the level of one component / one scope
 
 def run_pyx(mod, qbuf, mbuf, scope_bits):
+    mod.MAX_WRITTEN.clear()
     try:
         return list(mod.get_mapping(qbuf, mbuf, array('I', scope_bits))), None
     except Exception as e:  # MemoryFault of the transpiled C memory model, struct errors, ...
@@ -449,6 +456,14 @@ SMARTS_LIB = ['C', 'N', 'O', '[#6]', '[C,N]', '[C,N,O;D2]', 'A', '[A]', '[M]', '
               'C12CC1C2', 'C1CC2CC1CC2', 'C1CC12CC2', 'C[Fe]', 'C[M]', '[M]~[A]', 'F[U]', 'S(=O)(=O)', '[S;D4](=O)(=O)', 'Cl', '[F,Cl,Br,I]',
               'C[N+](C)(C)C', '[A;D1]~[A;D4]', '[C;D1]~[C]~[C;D1]', 'C |^1:0|', '[C;h3] |^1:0|', 'c1ccncc1', 'C:N', 'C:,=N', '[#7;r6]',
               '[La]', '[Lv]', '[#57,#58]', 'F[Th]', 'C[Hg]', 'Cl[Au]', 'C[Pb]', 'O=[Os]', 'Cl[Pt]', 'F[Th,U]', 'C[Sn,Pb]', '[Hg,Pb]C', 'C[Hg]C', 'B1OCCO1', 'O=C1NC=CC(=O)N1', '[C;r12]', 'C1CCCCCCCCCCC1']
+
+
+# inputs on which the stack arrays of the .pyx (2 * atoms_count cells) are too small (known finding stack-overflow), and near misses
+OVERFLOW_PAIRS = {'C123C45C16C24C356': ['C123C45C16C24C356', 'C1CC1', 'C12C3C1C23'],
+                  'FS(F)(F)(F)(F)F': ['FS(F)(F)(F)(F)F', 'S(F)(F)(F)(F)(F)F', 'FS(F)(F)(F)F', 'FSF'],
+                  'F%11.F%12.F%13.F%14.F%15.F%16.S%11%12%13%14%15%16': ['[A]([A])([A])([A])([A])([A])[A]', '[A]([A])([A])([A])([A])[A]'],
+                  'F[U](F)(F)(F)(F)F': ['F[U](F)(F)(F)(F)F'], 'FP(F)(F)(F)F': ['FP(F)(F)(F)F'],
+                  'FI(F)(F)(F)(F)(F)F': ['FI(F)(F)(F)(F)(F)F', 'FI(F)(F)F']}
 
 
 # ring queries for the family of small dense polycycles (plain carbons, single bonds: a brute-force oracle applies)
@@ -570,7 +585,7 @@ def molecules(rng, tier):
     m.add_atom('C'), m.add_atom('C'), m.add_atom('O')
     m.add_bond(1, 2, 8), m.add_bond(2, 3, 1)
     out.append(('special-bond', 'C~CO (order 8)', m))
-    fam = polycycles()
+    fam = polycycles() if tier == 'quick' else polycycles(4, 8, 1, 5)     # thorough: 4-8 atoms, 1-5 rings
     if tier == 'quick':
         small = [f for f in fam if f[0] <= 6]
         fam = small + rng.sample([f for f in fam if f[0] == 7], 70)
@@ -946,8 +961,9 @@ def component_runs(q, m, rng, mod, full_only=False):
         for sc in scopes:
             bits = [int(n in sc) for n in nums]
             fast, err = run_pyx(mod, qbufs[ci], mbuf, bits)
+            occ = mod.MAX_WRITTEN.get('stack_index', 0)
             slow = run_py(comp, clo, m, sc)
-            runs.append((ci, comp, bits, fast, err, slow))
+            runs.append((ci, comp, bits, fast, err, slow, occ))
     return (comps, clo, qbufs, mbuf, runs), None
 
 
@@ -973,18 +989,26 @@ def corr_pairs(ck, rng, mod, lay):
     mols.append(('synthetic-bonds', 'synthetic bond fragments', sb))
     bond_queries = synth_bond_queries()
     ring_queries = [(s, smarts(s)) for s in RING_QUERIES]
-    p_poly = .05 if ck.tier == 'quick' else .4
+    from chython import smiles as _smiles
+    overflow = {mt: [(qt, smarts(qt)) for qt in qts] for mt, qts in OVERFLOW_PAIRS.items()}
+    for mt in OVERFLOW_PAIRS:
+        mols.append(('overflow', mt, _smiles(mt)))
+    p_poly = .05 if ck.tier == 'quick' else .12
     n_brute = 0
+    max_occ_ratio = 0
     for kind, text, m in mols:
         h_none = any(a.implicit_hydrogens is None for a in m._atoms.values())
         if h_none:
             ck.count('molecule with an atom whose implicit_hydrogens is None (raw aromatic heteroatom, valence error)')
         qs = [(s, q) for s, q in rng.sample(lib, min(per_mol, len(lib)))] if kind == 'corpus' else list(lib)
+        if kind == 'overflow':
+            qs = overflow[text]
         if kind == 'polycycle':
             qs = list(ring_queries)
-            cq = cycle_query(m, rng)
-            if cq is not None:
-                qs.append(('cycle cut from ' + text + ' ' + repr(sorted(cq._atoms)), cq))
+            for _ in range(1 if ck.tier == 'quick' else 3):
+                cq = cycle_query(m, rng)
+                if cq is not None:
+                    qs.append(('cycle cut from ' + text + ' ' + repr(sorted(cq._atoms)), cq))
         if kind == 'synthetic-bonds':
             qs = bond_queries if ck.tier != 'quick' else bond_queries[::2] + bond_queries[1::4]
         if kind == 'corpus':
@@ -993,7 +1017,7 @@ def corr_pairs(ck, rng, mod, lay):
                 qs.append(('fragment of ' + text, fq))
         rm = rmol_term(m)
         for qtext, q in qs:
-            res, err = component_runs(q, m, rng, mod, full_only=kind in ('synthetic-bonds', 'polycycle'))
+            res, err = component_runs(q, m, rng, mod, full_only=kind in ('synthetic-bonds', 'polycycle', 'overflow'))
             if res is None:
                 ck.unchecked('encoders raised on a library query / molecule', err, [qtext, text])
                 continue
@@ -1008,11 +1032,16 @@ def corr_pairs(ck, rng, mod, lay):
                 for ci, comp in enumerate(comps):
                     cases.append(f'enc_query_ok {rq_term(comp, clo)} {query_t_term(decode_query(qbufs[ci], lay))}')
                     meta.append(('enc_query', qtext, ci))
-            for ci, comp, bits, fast, err, slow in runs:
+            for ci, comp, bits, fast, err, slow, occ in runs:
                 qnums = [e[0] for e in comp]
                 if err is not None:
                     if not h_none:
                         mismatches.append((qtext, text, q, m, f'accelerated path raised {err}'))
+                    if 'stack_index' in err and 'outside the allocation' in err:
+                        # known finding stack-overflow: the model must need more than 2 * atoms cells here, and not more than the proved bound
+                        cases.append(f'overflow_ok {rq_term(comp, clo)} {rm} {lst(bits, lambda x: b(bool(x)))}')
+                        meta.append(('overflow', qtext, text, ci))
+                        ck.count('search pair on which the transpiled loop overflows its stack arrays (known finding)')
                     continue
                 if len(slow) > MAX_MAPPINGS:
                     ck.count('pair skipped: too many mappings')
@@ -1038,9 +1067,10 @@ def corr_pairs(ck, rng, mod, lay):
                 if kind == 'polycycle' and rng.random() >= (p_poly * 2 if any(clo.get(e[0]) for e in comp) and (slow or fast) else p_poly / 2):
                     continue
                 n_pairs += 1
-                if n_pairs % 3 == 0:
+                if n_pairs % (8 if ck.tier == 'quick' else 3) == 0:
                     hyp_cases.append(f'gm_hyps_ok {rq_term(comp, clo)} {rm}')
-                cases.append(f'pair_ok {rq_term(comp, clo)} {rm} {lst(bits, lambda x: b(bool(x)))} {maps_term(fast, qnums)} {maps_term(slow, qnums)}')
+                cases.append(f'pair_ok {rq_term(comp, clo)} {rm} {lst(bits, lambda x: b(bool(x)))} {maps_term(fast, qnums)} {maps_term(slow, qnums)} {occ if n_pairs % 3 == 0 or ck.tier != "quick" else "(-1)"}')
+                max_occ_ratio = max(max_occ_ratio, occ / max(1, len(m)))
                 meta.append(('pair', qtext, text, ci, sum(bits)))
                 ck.case(('pair', qtext, text, ci, tuple(bits)), nontrivial=bool(slow) or bool(fast))
                 ck.count(f'search pair: {min(len(slow), 5)}{"+" if len(slow) >= 5 else ""} mappings, {len(comp)} query atoms'
@@ -1060,6 +1090,7 @@ def corr_pairs(ck, rng, mod, lay):
     ck.extra['search_pairs'] = n_pairs
     ck.extra['component_scope_calls_compared'] = n_oracle
     ck.extra['polycycle_pairs_vs_brute_force'] = n_brute
+    ck.extra['largest_stack_occupancy_over_atoms'] = round(max_occ_ratio, 2)
     if cases:
         k = next((i for i, x in enumerate(meta) if x[0] == 'pair' and 'Some [[' in cases[i]), 0)
         ck.sample({'model_call': cases[k][:600], 'meta': repr(meta[k])})
@@ -1118,6 +1149,96 @@ def report_pair(ck, qtext, text, q, m, what, kw=None):
                       replay_py=(REPLAY_PRE + f'q = smarts({qtext!r}); m = smiles({text!r}); '
                                  f'print(list(q.get_mapping(m, **{kw or {}!r}))); print(list(q.get_mapping(m, _cython=False, **{kw or {}!r})))')
                       if not qtext.startswith(('fragment', 'cycle cut')) and not text.startswith('synthetic') else None)
+
+
+# ---------------------------------------------------------------------------------------------------------
+# correspondence of the PUBLIC call: wrapper (components x connected components, scope, lazy_product, automorphism filter) + guard
+
+EXTRA_PUB = EXTRA + '''
+Fixpoint ins_kv (x : Z * Z) (l : list (Z * Z)) : list (Z * Z) :=
+  match l with [] => [x] | y :: r => if fst x <=? fst y then x :: l else y :: ins_kv x r end.
+Definition norm_map (m : list (Z * Z)) : list (Z * Z) := fold_right ins_kv [] m.
+Definition pub_run (cython : bool) (comps : list (list rqent)) (rm : list ratom) (tcomps : list (list Z)) (flt : bool)
+           (scope : option (list Z)) : list (list (Z * Z)) :=
+  map norm_map (public_get_mapping (fun _ => true) cython comps rm tcomps flt scope FUEL).
+Definition pub_ok (comps : list (list rqent)) (rm : list ratom) (tcomps : list (list Z)) (flt : bool) (scope : option (list Z))
+           (ofast oslow : list (list (Z * Z))) : bool :=
+  list_eqb (list_eqb pair_zz_eqb) (pub_run true comps rm tcomps flt scope) ofast &&
+  list_eqb (list_eqb pair_zz_eqb) (pub_run false comps rm tcomps flt scope) oslow.
+'''
+
+MULTI_MOLS = ['CC.OO.N', 'C1CCCCC1.C1CCCCC1', '[Na+].[Cl-]', 'CCO.CCN.CC', 'c1ccccc1.CC(=O)O.O', 'C.C.C', 'CCO', 'c1ccncc1.O']
+MULTI_QUERIES = ['C.O', 'C.C', 'CC.O', 'N.N.C', '[Na+].[Cl-]', 'C1CC1.C', 'C.C.C', 'O.C.N', 'CC.CC', 'C', 'CC', '[C,N].[O,N]', 'C:C.O',
+                 '[N;h0].O', 'CO.CN']
+
+
+def pub_case(q, m, flt, scope):
+    """one public call on both paths + the model term; None when there are too many mappings"""
+    kw = {'automorphism_filter': flt}
+    if scope is not None:
+        kw['searching_scope'] = scope
+    fast, slow = both_paths(q, m, **kw)
+    if isinstance(fast, str) or len(slow) > MAX_MAPPINGS or len(fast) > MAX_MAPPINGS:
+        return fast, slow, None
+    comps, clo = q._compiled_query
+    obs = lambda maps: lst([lst([tup(zraw(k), zraw(v)) for k, v in sorted(d.items())]) for d in maps])
+    term = (f'pub_ok {lst([rq_term(c, clo) for c in comps])} {rmol_term(m)} {lst([lst(list(c), zraw) for c in m.connected_components])} '
+            f'{b(flt)} {opt(scope, lambda sc: lst(list(sc), zraw))} {obs(fast)} {obs(slow)}')
+    return fast, slow, term
+
+
+def corr_public(ck, rng):
+    from chython import smiles, smarts
+    from chython.containers import QueryContainer
+    cases, meta = [], []
+    queries = [(t, smarts(t)) for t in MULTI_QUERIES] + [('(empty query)', QueryContainer('empty'))]
+    todo = []
+    for mt in MULTI_MOLS:
+        m = smiles(mt)
+        nums = list(m._atoms)
+        scopes = [None, sorted(rng.sample(nums, max(1, len(nums) * 2 // 3))), []]
+        for qt, q in queries:
+            for flt in (True, False):
+                for sc in scopes:
+                    todo.append((qt, q, mt, m, flt, sc))
+    lib = []
+    for t in SMARTS_LIB:
+        try:
+            lib.append((t, smarts(t)))
+        except Exception:
+            pass
+    pool = corpus.sample(corpus.lipo(), 25 if ck.tier == 'quick' else 300, ck.seed, 'c09-public')
+    for mt in pool:
+        try:
+            m = smiles(mt)
+        except Exception:
+            continue
+        for qt, q in rng.sample(lib, 3) + [('fragment of ' + mt, fragment_query(m, rng))]:
+            sc = rng.choice([None, None, sorted(rng.sample(list(m._atoms), max(1, len(m) // 2)))])
+            todo.append((qt, q, mt, m, rng.random() < .5, sc))
+    if ck.tier == 'quick':
+        todo = [t for i, t in enumerate(todo) if t[2] not in MULTI_MOLS or i % 2 == 0]
+    for qt, q, mt, m, flt, sc in todo:
+        fast, slow, term = pub_case(q, m, flt, sc)
+        if isinstance(fast, str) or as_set(fast) != as_set(slow):
+            report_pair(ck, qt, mt, q, m, 'different sets of mappings (public call, wrapper correspondence inputs)',
+                        {'automorphism_filter': flt, **({'searching_scope': sc} if sc is not None else {})})
+        if term is None:
+            continue
+        cases.append(term)
+        meta.append((qt, mt, flt, sc))
+        ck.case(('public', qt, mt, flt, tuple(sc) if sc is not None else None), nontrivial=bool(slow))
+        ncomp = len(q._compiled_query[0])
+        ck.count(f'public call: {min(ncomp, 3)}{"+" if ncomp >= 3 else ""} query components, '
+                 f'{"no scope" if sc is None else "empty scope" if not sc else "scope"}, {"some" if slow else "no"} mappings')
+    ok, failing, log = coqcases.run_cases('c09_pub', 'PyBase', cases, extra=EXTRA_PUB, shard=60)
+    ck.oblige('correspondence: QueryIsomorphism.get_mapping on both paths (guard, components x connected components, scope, lazy_product, '
+              'automorphism filter) == public_get_mapping as sequences of dictionaries', ok and not failing, 'correspondence',
+              log or str([meta[i] for i in failing[:5]]))
+    ck.extra['correspondence_cases_public'] = len(cases)
+    if not ok or failing:
+        ck.unchecked('correspondence public_get_mapping vs QueryIsomorphism.get_mapping', log[-1500:], [repr(meta[i]) for i in failing[:20]])
+    return ok and not failing
 
 
 # ---------------------------------------------------------------------------------------------------------
@@ -1272,7 +1393,10 @@ def run(ck):
     tied2 = corr_pairs(ck, rng, mod, lay)
     ck.extra['phase_s']['correspondence_search'] = round(time.time() - t0, 1)
     t0 = time.time()
+    tied3 = corr_public(ck, rng)
+    ck.extra['phase_s']['correspondence_public'] = round(time.time() - t0, 1)
+    t0 = time.time()
     search(ck, rng, mod)
     ck.extra['phase_s']['api_search'] = round(time.time() - t0, 1)
     ck.extra['proved'] = proved
-    ck.extra['tied'] = bool(tied1 and tied2)
+    ck.extra['tied'] = bool(tied1 and tied2 and tied3)
